@@ -181,6 +181,15 @@ func ptrVal(val reflect.Value) reflect.Value {
 	return val.Addr()
 }
 
+// slotType is the type of what createNonPtrVal hands out for val: every pointer removed.
+func slotType(val reflect.Value) reflect.Type {
+	typ := val.Type()
+	for typ.Kind() == reflect.Ptr {
+		typ = typ.Elem()
+	}
+	return typ
+}
+
 func nonPtrType(val reflect.Value) reflect.Type {
 	typ := val.Type()
 	if typ.Kind() == reflect.Ptr {
@@ -664,7 +673,9 @@ func (w *_assembler) createNonPtrVal() reflect.Value {
 	// We should probably never reuse the existing value.
 
 	// TODO: support **T as well as *T?
-	if val.Kind() == reflect.Ptr {
+	// (a loop: verifyCompatibility lets a further pointer through wherever it lets one through,
+	// e.g. **T for a nullable field)
+	for val.Kind() == reflect.Ptr {
 		// TODO: Sometimes we call createNonPtrVal before an assignment actually
 		// happens. Does that matter?
 		// If it matters and we only want to modify the destination value on
@@ -924,7 +935,7 @@ func (w *_assembler) assignUInt(uin datamodel.UintNode) error {
 		if err != nil {
 			return err
 		}
-		goType := nonPtrType(w.val)
+		goType := slotType(w.val)
 		if kindUint[goType.Kind()] {
 			if reflect.Zero(goType).OverflowUint(i) {
 				return fmt.Errorf("bindnode: integer %d overflows %s", i, goType)
@@ -972,7 +983,7 @@ func (w *_assembler) AssignInt(i int64) error {
 		if isAny {
 			// Any means the Go type must receive a datamodel.Node
 			w.createNonPtrVal().Set(reflect.ValueOf(basicnode.NewInt(i)))
-		} else if goType := nonPtrType(w.val); kindUint[goType.Kind()] {
+		} else if goType := slotType(w.val); kindUint[goType.Kind()] {
 			if i < 0 {
 				// TODO: write a test
 				return fmt.Errorf("bindnode: cannot assign negative integer to %s", w.val.Type())
